@@ -465,7 +465,29 @@ func runC20(c *Ctx) {
 		paths := fx.retPaths(act, 0, WantTrue)
 		for i, rp := range paths {
 			_, ok := hasFact(rp.Facts, func(f Fact) bool {
-				return f.Pol && f.T.Op == "bin" && f.T.Name == "==" && f.T.Args[0].lastField() == "Phase" && (strings.Contains(f.T.Args[1].String(), "Pending") || strings.Contains(f.T.Args[1].String(), "Running"))
+				if f.Pol && f.T.Op == "bin" && f.T.Name == "==" && f.T.Args[0].lastField() == "Phase" && (strings.Contains(f.T.Args[1].String(), "Pending") || strings.Contains(f.T.Args[1].String(), "Running")) {
+					return true
+				}
+				// membership in a package-level list of phases whose members are exactly these
+				if f.Pol && f.T.Op == "call" && strings.Contains(f.T.Name, "Contains") && len(f.T.Args) == 2 && f.T.Args[1].lastField() == "Phase" {
+					gv0 := f.T.Args[0].V
+					if ld, isLd := gv0.(*ssa.UnOp); isLd {
+						gv0 = ld.X
+					}
+					if g, isG := gv0.(*ssa.Global); isG {
+						if gv, isVar := g.Object().(*types.Var); isVar {
+							members := compositeConsts(p, gv)
+							all := len(members) > 0
+							for _, m := range members {
+								if m != `"Pending"` && m != `"Running"` {
+									all = false
+								}
+							}
+							return all
+						}
+					}
+				}
+				return false
 			})
 			c.Check(ok, "O4", "ABS", fmt.Sprintf("%s true path#%d", funcKey(act), i), rp.Pos, "phase Pending or Running", "a pod outside {Pending, Running} is counted as requesting resources")
 		}
